@@ -10,14 +10,14 @@ Dflt(f) == CASE f \in {"bal", "s1", "s2", "ev", "asup", "eq", "votes"} -> 0
              [] f \in {"rs", "rac", "rai", "req"} -> "Z"       \* no entries: zero root
              [] OTHER -> ""
 Empty(F) == [f \in F |-> Dflt(f)]
-RECURSIVE With(_, _)
-With(r, ps) == IF ps = <<>> THEN r ELSE With(Upd(r, Head(ps)[1], Head(ps)[2]), Tail(ps))
+RECURSIVE With0(_, _)
+With0(r, ps) == IF ps = <<>> THEN r ELSE With0(Upd(r, Head(ps)[1], Head(ps)[2]), Tail(ps))
+\* ... with the roots its contents have
+With(r, ps) == WithRoots(With0(r, ps), "Z")
 \* a committed parent state with something in every attribute
-FullC(F) == With(Empty(F), << <<"bal", 1>>, <<"code", "c1">>, <<"chash", "c1">>, <<"s1", 1>>, <<"aid", "m1">>, <<"eq", 1>>,
-                              <<"rs", "B">>, <<"rai", "B">>, <<"req", "B">> >>)
+FullC(F) == With(Empty(F), << <<"bal", 1>>, <<"code", "c1">>, <<"chash", "c1">>, <<"s1", 1>>, <<"aid", "m1">>, <<"eq", 1>> >>)
 FullU(F) == With(Empty(F), << <<"bal", 1>>, <<"ax", TRUE>>, <<"asup", 1>>, <<"afr", "true">>, <<"aid", "m1">>, <<"eq", 1>>,
-                              <<"p1", "true">>, <<"p2", "h1">>, <<"votes", 1>>, <<"vf", "c">>, <<"sig", "g1">>,
-                              <<"rac", "B">>, <<"rai", "B">>, <<"req", "B">> >>)
+                              <<"p1", "true">>, <<"p2", "h1">>, <<"votes", 1>>, <<"vf", "c">>, <<"sig", "g1">> >>)
 KC == {"bal", "s1", "s2", "code", "sui", "ev", "aid", "eq"}
 KU == {"bal", "ax", "asup", "afr", "aid", "eq", "cand", "p1", "p2", "votes", "vf", "sig"}
 
@@ -57,5 +57,5 @@ KindsNest == [a \in AcctC |-> {"bal"}]
 BaseNest == {[a \in AcctC |-> Empty(FNest)]}
 KindsNegGap == [a \in AcctC |-> {"bal", "s1"}]
 NoDev == {}
-AllDev == {"Dev_MergeAcrossSuicide", "Dev_WorthlessSuicideDropped", "Dev_UndoCodeDropsPreviousCode", "Dev_UndoSuicideShallow", "Dev_UndoEventNoop", "Dev_RevertVersionGapPanics", "Dev_UndoFirstEquityPanics"}
+AllDev == {"Dev_RevertedCreationLeavesEmptyRoot", "Dev_MergeAcrossSuicide", "Dev_WorthlessSuicideDropped", "Dev_UndoCodeDropsPreviousCode", "Dev_UndoSuicideShallow", "Dev_UndoEventNoop", "Dev_RevertVersionGapPanics", "Dev_UndoFirstEquityPanics"}
 ====
